@@ -1,4 +1,4 @@
 From Coq Require Extraction ExtrOcamlBasic.
-From Centro Require Import Base.Sx Model.MeasureC13 Model.EllipseCoordsC13.
+From Centro Require Import Base.Sx Model.MeasureC13 Model.EllipseCoordsC13 Model.EntryC18 Model.HullAreaC13.
 Extraction Language OCaml.
-Extraction "extracted/c13.ml" entry_measure entry_idioms entry_ell_coords.
+Extraction "extracted/c13.ml" entry_measure entry_idioms entry_ell_coords entry_median entry_hull_area.
